@@ -3,11 +3,14 @@
 package c18
 
 import (
+	"bytes"
 	"fmt"
+	"github.com/google/pprof/internal/report"
 	"math/rand"
 	"regexp"
 	"strconv"
 	"strings"
+	"sync"
 
 	"github.com/google/pprof/profile"
 	"github.com/google/pprof/verif/internal/drv"
@@ -95,8 +98,10 @@ func plant(p *profile.Profile, site, h string) {
 			s.Label = map[string][]string{h: {"v"}}
 		}
 	case "labelval":
+		// the hostile value next to another one that sorts after it, alone, or as the last one
+		vals := [][]string{{h, "w"}, {h}, {"!", h}}[len(h)%3]
 		for _, s := range p.Sample {
-			s.Label = map[string][]string{"k": {h, "w"}}
+			s.Label = map[string][]string{"k": append([]string(nil), vals...)}
 		}
 	case "numunit":
 		for _, s := range p.Sample {
@@ -153,6 +158,78 @@ func caseOf(c *harness.Ctx) (site, h string) {
 	site = sites[c.Index%len(sites)]
 	h = hostile[(c.Index/len(sites))%len(hostile)]
 	return
+}
+
+// part paralleldot: several graphs composed at once in one process (as concurrent web requests do):
+// every document equals the one composed alone, and is valid DOT.
+func runParallelDOT(c *harness.Ctx) harness.Result {
+	r := c.Rng
+	type job struct {
+		p    *profile.Profile
+		want string
+	}
+	var jobs []job
+	gen := func(p *profile.Profile) (string, error) {
+		q := p.Copy()
+		q.Aggregate(true, true, false, false, false, false)
+		rpt := report.New(q, &report.Options{OutputFormat: report.Dot, SampleValue: func(v []int64) int64 { return v[1] }, SampleUnit: "count", NodeCount: 80, NodeFraction: 0.005, EdgeFraction: 0.001})
+		var b bytes.Buffer
+		err := report.Generate(&b, rpt, nil)
+		return b.String(), err
+	}
+	for i := 0; i < 6; i++ {
+		p := baseProfile(r)
+		plant(p, sites[r.Intn(len(sites))], hostile[r.Intn(len(hostile))])
+		plant(p, []string{"fn", "labelval", "labelkey", "mapfile"}[r.Intn(4)], hostile[r.Intn(len(hostile))])
+		w, err := gen(p)
+		if err != nil {
+			continue
+		}
+		jobs = append(jobs, job{p, w})
+	}
+	res := harness.Result{NonTrivial: len(jobs) >= 2, Sig: fmt.Sprint("paralleldot", c.Index), Sample: fmt.Sprintf("%d graphs composed concurrently, 25 times each", len(jobs))}
+	var wg sync.WaitGroup
+	bad := make([]string, len(jobs))
+	for i := range jobs {
+		wg.Add(1)
+		go func(i int) {
+			defer wg.Done()
+			for k := 0; k < 25 && bad[i] == ""; k++ {
+				got, err := gen(jobs[i].p)
+				if err != nil || got != jobs[i].want {
+					bad[i] = fmt.Sprintf("graph %d composed while %d others are being composed differs from the same graph composed alone (err=%v)\n%s", i, len(jobs)-1, err, firstDiffStr(jobs[i].want, got))
+				}
+			}
+		}(i)
+	}
+	wg.Wait()
+	c.Stat("parallel_dot_documents", int64(25*len(jobs)))
+	for _, b := range bad {
+		if b != "" {
+			res.Verdict, res.Detail = harness.Violated, b
+			return res
+		}
+	}
+	return res
+}
+
+func firstDiffStr(a, b string) string {
+	i := 0
+	for i < len(a) && i < len(b) && a[i] == b[i] {
+		i++
+	}
+	lo := i - 100
+	if lo < 0 {
+		lo = 0
+	}
+	ha, hb := i+100, i+100
+	if ha > len(a) {
+		ha = len(a)
+	}
+	if hb > len(b) {
+		hb = len(b)
+	}
+	return fmt.Sprintf("first difference at byte %d:\n alone       : …%q\n concurrently: …%q", i, a[lo:ha], b[lo:hb])
 }
 
 func runDOT(c *harness.Ctx) harness.Result {
@@ -429,6 +506,7 @@ func init() {
 		Parts: []harness.Part{
 			{Name: "dot", Quick: 3 * n, Thor: 120 * n, Run: runDOT},
 			{Name: "callgrind", Quick: 2 * n, Thor: 60 * n, Run: runCallgrind},
+			{Name: "paralleldot", Quick: 40, Thor: 2000, Run: runParallelDOT},
 			{Name: "html", Quick: len(sites) * len(htmlTokens) * 2, Thor: len(sites) * len(htmlTokens) * 40, Run: runHTML},
 		},
 		Extra: func(tier string, st map[string]int64) map[string]any {
